@@ -560,6 +560,57 @@ class C16(runner.Check):
 				if any(c["status"] == "definite" for c in cands2):
 					out.violate("raised", "second extract_loci call raised %s: %s" % (
 						type(e).__name__, str(e)[:200]), key={"exc": type(e).__name__})
+		first_fa = [i for i, c in enumerate(case["combos"]) if c["seq"] == "fasta"]
+		if first_fa and not out.violations and n_def > 0:
+			ci = first_fa[0]
+			combo = dict(case["combos"][ci], fasta_width=case["combos"][ci]["fasta_width"] + 3)
+			case3 = copy.deepcopy(case)
+			for c in case3["chroms"]:
+				c["seq"] = c["seq"][7:] + c["seq"][:3][::-1]      # other bases, other length
+			case3["kw"]["min_counts"] = case3["kw"]["max_counts"] = None
+			kw3 = case3["kw"]
+			cands3 = self._model(case3)
+			tag = "c16_%d_%d_fa" % (os.getpid(), case.get("seed", 0))
+			scratch = repo.scratch_dir()
+			fa = os.path.join(scratch, tag + ".fa")
+			# first generation of the file + index, then the regenerated file
+			genome.write_fasta(fa, [(c["name"], c["seq"]) for c in case["chroms"]],
+				width=case["combos"][ci]["fasta_width"])
+			import pyfaidx
+			pyfaidx.Fasta(fa).close()
+			genome.write_fasta(fa, [(c["name"], c["seq"]) for c in case3["chroms"]],
+				width=combo["fasta_width"], keep_index=True)
+			loci, sequences, signals, in_signals, paths = self._materialise(case3,
+				dict(combo, seq="dict"), tag + "x")
+			try:
+				try:
+					import warnings
+					with warnings.catch_warnings():
+						warnings.simplefilter("ignore")
+						res = self.tio.extract_loci(loci, fa, signals=signals,
+							in_signals=in_signals, chroms=kw3["chroms"],
+							in_window=kw3["in_window"], out_window=kw3["out_window"],
+							max_jitter=kw3["max_jitter"], target_idx=kw3["target_idx"],
+							n_loci=kw3["n_loci"])
+				finally:
+					for p in paths + [fa, fa + ".fai"]:
+						try:
+							os.remove(p)
+						except OSError:
+							pass
+				parts = [res] if isinstance(res, torch.Tensor) else list(res)
+				msg = self._align(cands3, parts[0].numpy(),
+					parts[1].numpy() if signals is not None else None,
+					parts[-1].numpy() if in_signals is not None else None, kw3)
+				out.bump("probe.regenerated_fasta_same_path")
+				if msg:
+					out.violate("stale_file_content", "extract_loci after the FASTA at the "
+						"same path was regenerated (an older .fai lies next to it): %s" % msg[1],
+						key="stale_fasta")
+			except Exception as e:
+				if any(c["status"] == "definite" for c in cands3):
+					out.violate("raised", "extract_loci on a regenerated FASTA raised %s: %s"
+						% (type(e).__name__, str(e)[:200]), key={"exc": type(e).__name__})
 		out.nontrivial = n_def > 0 and ran > 0
 		out.digest = log.digest()
 		out.sample = {"leg": "loci", "seed": case.get("seed"), "chrom_lengths":
